@@ -204,10 +204,6 @@ func (p *process) cleanup(cancel context.CancelFunc) {
 	}
 	p.dead = true
 
-	if p.context.parentCtx != nil {
-		p.context.parentCtx.children.Delete(p.pid.ID)
-	}
-
 	if p.context.children.Len() > 0 {
 		children := p.context.Children()
 		for _, pid := range children {
@@ -220,6 +216,11 @@ func (p *process) cleanup(cancel context.CancelFunc) {
 	// finds the PID gone may signal its caller at once.
 	p.deliverStopped()
 	p.context.engine.Registry.Remove(p.pid)
+	// Only now is the child gone for its parent: a parent that shuts down while
+	// this cleanup is still running must wait for it.
+	if p.context.parentCtx != nil {
+		p.context.parentCtx.children.Delete(p.pid.ID)
+	}
 
 	p.context.engine.BroadcastEvent(ActorStoppedEvent{PID: p.pid, Timestamp: time.Now()})
 	p.flush()
